@@ -8,9 +8,11 @@ import (
 	"encoding/json"
 	"errors"
 	"fmt"
+	"strings"
 	"sync"
 
 	"github.com/elementsproject/glightning/gelements"
+	"github.com/elementsproject/glightning/jrpc2"
 	"github.com/elementsproject/peerswap/swap"
 	"github.com/vulpemventures/go-elements/transaction"
 )
@@ -29,6 +31,11 @@ type c08Elementsd struct {
 	sent     []string
 	sentTrue []*c03LqTxTruth
 	fundOpts []gelements.FundRawOptions
+	// rejectFirst: the node's peers relay at a higher fee than its estimate: the first sendrawtransaction is refused
+	// with code -26; whatever is funded afterwards gets its change output on the other side of the swap output (elementsd
+	// picks the change position at random for every fundrawtransaction)
+	rejectFirst bool
+	rejected    int
 }
 
 func (e *c08Elementsd) GetNewAddress(addrType int) (string, error) {
@@ -84,6 +91,9 @@ func (e *c08Elementsd) FundRawWithOptions(txstring string, options *gelements.Fu
 	fund := e.w.fund
 	change := e.w.newAddrLocked()
 	e.w.mu.Unlock()
+	if e.rejectFirst && e.nFund > 1 {
+		fund.Layout = strings.NewReplacer("S", "C", "C", "S").Replace(fund.Layout)
+	}
 	if options != nil && options.ChangePosition != nil {
 		// honour an explicit change position: move 'C' there
 		return nil, errors.New("fake elementsd: explicit changePosition not modelled")
@@ -169,6 +179,10 @@ func (e *c08Elementsd) SendRawTx(txHex string) (string, error) {
 	tx, err := transaction.NewTxFromHex(txHex)
 	if err != nil {
 		return "", err
+	}
+	if e.rejectFirst && e.rejected == 0 {
+		e.rejected++
+		return "", &jrpc2.RpcError{Code: -26, Message: "min relay fee not met (injected)"}
 	}
 	e.sent = append(e.sent, txHex)
 	if e.blinded != nil && e.blinded.Hex == txHex {
